@@ -59,6 +59,32 @@ for trial in range(200):
     D = diags(v, format="csr")
     check("diags dense", np.allclose(D.toarray(), np.diag(v)))
     check("diag.dot scales rows", np.allclose(D.dot(csr).toarray(), v[:, None] * csr.toarray()))
+    # fancy selection A[:, idx] / A[idx, :] on csr / csc: selected columns / rows in the order of idx, negatives from the end,
+    # format kept, IndexError outside [-dim, dim); tocsc / tocsr keep the dense view; the source is untouched
+    idx = [int(x) for x in rng.integers(-n, n, int(rng.integers(0, n + 2)))]
+    A = csr.toarray()
+    before = csr.data.copy()
+    sel = csr.copy()[:, idx]
+    check("csr[:, idx] dense/format", sel.format == "csr" and sel.shape == (n, len(idx)) and np.array_equal(sel.toarray().reshape(n, len(idx)), A[:, idx]))
+    cs = sel.tocsc()
+    check("tocsc dense", cs.format == "csc" and np.array_equal(cs.toarray().reshape(n, len(idx)), A[:, idx]))
+    rs = cs[idx, :]
+    check("csc[idx, :] dense/format", rs.format == "csc" and rs.shape == (len(idx), len(idx)) and np.array_equal(rs.toarray().reshape(len(idx), len(idx)), A[np.ix_(idx, idx)]))
+    check("csc.tocsr dense", rs.tocsr().format == "csr" and np.array_equal(rs.tocsr().toarray().reshape(len(idx), len(idx)), A[np.ix_(idx, idx)]))
+    check("row selection keeps row sums", np.allclose(np.asarray(csr[idx, :].sum(axis=1)).ravel(), A.sum(axis=1)[idx]))
+    check("selection leaves the source untouched", np.array_equal(csr.data, before))
+    for bad in (n, -n - 1):
+        try:
+            csr[:, [bad]]
+            check("fancy index out of range raises IndexError", False)
+        except IndexError:
+            check("fancy index out of range raises IndexError", True)
+    # filter membership: x in [i for i in range(n) if c(i)]  <=>  0 <= x < n and c(x); two ascending enumerations of one set coincide
+    mask = rng.integers(0, 2, n).astype(bool)
+    keep = sorted(set(range(n)) - set(np.flatnonzero(~mask).tolist()))
+    check("sorted(set difference) = ascending filter", keep == [i for i in range(n) if mask[i]])
+    check("membership in a filter result = its condition", all((x in keep) == (0 <= x < n and bool(mask[x])) for x in range(-2, n + 2)))
+    check("filtered enumerate keeps exactly the kept positions in order", [x for i, x in enumerate([[i] for i in range(n)]) if i in keep] == [[kk] for kk in keep])
     # dok item access
     K = dok_array((n, n))
     K[0, n - 1] += 1
